@@ -5,6 +5,9 @@ CONSTANTS
   EmitUnlocked = FALSE
   StallFire = FALSE
   FixedTimer = FALSE
+  Split = FALSE
+  PeekStop = FALSE
+  WireGaps = FALSE
 SPECIFICATION Spec
 INVARIANTS NoPanic NoStateClobber ExactlyOneEOFLast TimingExact
 CHECK_DEADLOCK TRUE
